@@ -408,7 +408,8 @@ MAC_HASH = {A.HMAC_SHA1: "sha1", A.HMAC_SHA224: "sha224", A.HMAC_SHA256: "sha256
 MAC_CIPHER = {A.AES: "AES", A.TRIPLE_DES: "TripleDES", A.CAMELLIA: "Camellia", A.RC4: "ARC4"}
 
 
-def mac():
+def mac(oracle="c06"):
+    """oracle 'c13': only 'whatever the backend raises, the crypto engine answers with a KMIP error'."""
     def h(ai: int, klen: int, data: bytes, site: int, boom: int) -> bool:
         """
         post: _
@@ -422,6 +423,15 @@ def mac():
         key = bytes(range(1, klen + 1))
         _Boom.kind = None if boom == 0 else (["hmac", "cmac", "algorithm"][site], boom - 1)
         e = install()
+        if oracle == "c13":
+            try:
+                e.mac(alg, key, data)
+            except kex.KmipError:
+                pass
+            finally:
+                _Boom.kind = None
+            reach()
+            return True                       # any other exception propagates: it would reach the catch-all
         try:
             out = e.mac(alg, key, data)
         except kex.InvalidField:
